@@ -71,7 +71,9 @@ TRUSTED = ['modelled rather than verified: PortManager.cpp (GenericPatchPort wit
            'Add+Remove Source/SinkClient, UniverseStore.cpp GetUniverse(OrCreate)/AddUniverseGarbageCollection/'
            'GarbageCollectUniverses, Device.cpp Stop/DeleteAllPorts/GenericDeletePort, PortBroker.cpp AddPort/'
            'RemovePort, DeviceManager.cpp RegisterDevice/UnregisterDevice/UnregisterAllDevices/ReleaseDevice/'
-           'Save+RestorePortPatchings/Priority, OlaServerServiceImpl::RegisterForDmx with fixes/03',
+           'Save+RestorePortPatchings/Priority, OlaServerServiceImpl::RegisterForDmx with fixes/03 and UpdateDmxData, '
+           'Universe::SourceClientDataChanged/CleanStaleSourceClients, the GC + clean loop of OlaServer::RunHousekeeping '
+           '(replicated in the harness; RDM discovery scheduling not modelled)',
            'the sibling view handed to the veto function is computed eagerly in the model (the code evaluates the '
            'hook only when SetUniverse is reached); device aliases and time-code port set not modelled',
            'not modelled: RDM discovery on patch and UID maps, PortBroker RDM request routing, export-map counters, '
@@ -351,7 +353,10 @@ LEVEL_TEXT = ('Coq theorems over an executable model of port patching (PortManag
               '<=> the port ended on the requested universe, an existing port is in the broker <=> patched, unregister+'
               'stop leaves none of the device\'s ports listed.  The model is the code with fixes/01-03 applied and is '
               'tied to the C++ by a differential correspondence check after every operation (ASan/UBSan build of the '
-              'working tree).  Not covered: the PortBroker keeps the keys of ports deleted by Device::Stop (proved '
+              'working tree).  Round 4 adds DMX frames and housekeeping (GC + CleanStaleSourceClients, per-client stale flag): '
+              'invariant, lifetime, a frame makes the client a fresh referrer, a fresh referrer and its universe survive a '
+              'housekeeping run; that the other operations leave source-client lists and flags alone is covered by the '
+              'correspondence only.  Not covered: the PortBroker keeps the keys of ports deleted by Device::Stop (proved '
               'as stated, reported as a finding outside the property text); preference file parsing is C18.')
 LEVEL_NOTE = ('Trusted: Coq kernel, extraction (ExtrOcamlBasic), OCaml/C++ glue, generator coverage of the '
               'correspondence (model = code is validated by differential testing, not proved); the plugin veto is '
